@@ -123,9 +123,18 @@ func TestC12(t *testing.T) {
 }
 
 func TestC13(t *testing.T) {
-	runProp(t, "C13", func(e *Env) func(*rapid.T) {
-		return SafetyProp(e, mkC13, shC13, func(w *sim.World) bool {
-			return w.Stats["c13_watch_is_primary"] > 0
-		})
-	})
+	SkipUnlessSelected(t, "C13")
+	e := GetEnv("C13")
+	defer e.Flush()
+	// silence in every state the adversarial driver reaches ...
+	rapid.Check(t, SafetyProp(e, mkC13, shC13, func(w *sim.World) bool {
+		return w.Stats["c13_watch_is_primary"] > 0
+	}))
+	if t.Failed() {
+		return
+	}
+	// ... and the validators around a flagged validator progress as if it were a silent one
+	rapid.Check(t, TimedProp(e, mkC13t, shC13t, func(w *sim.World) bool {
+		return w.Stats["c13_watch_is_primary"] > 0 && w.TimedRes != nil && w.TimedRes.Done
+	}))
 }
